@@ -133,6 +133,8 @@ class Builder:
                         ht.more_sources = list(getattr(tgt, 'more_sources', []))
                         ht.no_auto_callees = True
                         helpers.append('static ' + self.lower(ht))
+                        self.helper_texts = getattr(self, 'helper_texts', {})
+                        self.helper_texts[hc] = helpers[-1]
                         self.profile.calls['%s::%s/%d' % (hcls, hname, hn)] = ('calleeret' if self.last.ret_class else 'callee', hc)
                         self.auto_callees = getattr(self, 'auto_callees', []) + [{'function': hcls + '::' + hname, 'for': tgt.cname}]
                         lw = tgt.lowerer_cls(d, tgt.cname, self.profile, this_type=tgt.this)
@@ -152,6 +154,8 @@ class Builder:
                     ht.more_sources = list(getattr(tgt, 'more_sources', []))
                     ht.no_auto_callees = True
                     helpers.append('static ' + self.lower(ht))
+                    self.helper_texts = getattr(self, 'helper_texts', {})
+                    self.helper_texts[hc] = helpers[-1]
                     self.profile.calls['fn:%s/%d' % (hname, hn)] = ('calleeret' if self.last.ret_class else 'callee', hc)
                     self.auto_callees = getattr(self, 'auto_callees', []) + [{'function': hname, 'for': tgt.cname}]
                     lw = tgt.lowerer_cls(d, tgt.cname, self.profile, this_type=tgt.this)
@@ -185,6 +189,10 @@ class Builder:
                                'rules_fired': len(lw.fired), 'calls_dropped': len(lw.dropped),
                                'locals': sorted(set(lw.names) - set(getattr(lw, 'param_names', ())))})
         self.last = lw
+        # a helper that was auto-lowered for an earlier target and is called here through the rule registered then
+        for hc_, ht_ in getattr(self, 'helper_texts', {}).items():
+            if hc_ in lw.repo_callees and ht_ not in helpers and hc_ != tgt.cname:
+                helpers.append(ht_)
         if helpers:
             text = '\n'.join(helpers) + '\n/*@END-HELPERS@*/\n' + text
         return text
